@@ -60,7 +60,7 @@ def order_event(tid, base0, steps):
         kept = []           # (earlier object, what it advertised when it was made)
         for j in perm:
             s = steps[j]
-            kept.append((f, modif.routes(f)))
+            kept.append((f, (modif.routes(f), modif.call_all(f, base, False, None))))
             try:
                 if s['kind'] == 'kwo':
                     f = modifiers.kwoargs(*s['names'])(f)
@@ -77,7 +77,8 @@ def order_event(tid, base0, steps):
                 ok = 'other:' + type(e).__name__
                 break
         # deriving a further variant from a kept object must not change what that object advertises (annotate is meant to, and is excluded)
-        stable = all(modif.routes(obj) == before for (obj, before), j in zip(kept, perm) if steps[j]['kind'] != 'ann' and not any(steps[x]['kind'] == 'ann' for x in perm))
+        stable = all((modif.routes(obj), modif.call_all(obj, base, False, None)) == before for (obj, before), j in zip(kept, perm)
+                     if not any(steps[x]['kind'] == 'ann' for x in perm))
         p = {'order': list(perm), 'applied': ok, 'adv': [], 'calls': [], 'kept_stable': stable}
         if ok == 'ok':
             p['adv'] = modif.routes(f)
